@@ -101,7 +101,12 @@ CLAIMED.update({
             NOTE + "Python object identity is modelled by row ids; dict/set order by insertion-ordered lists.",
             "Coq proof (pipeline invariant, ~4000 lines) + in-Coq correspondence of the whole pipeline + coverage oracle",
             "DESIGN.md 6/C01, 13"),
-    "C02": ("Coq theorems about the remapping stage (remap_to_input), no size bound, for EVERY PretextView-model edit script and more: "
+    "C02": ("THE CAPSTONE C02_end_to_end / C02_end_to_end_order: ONE statement about the final output of `remap` -- for every untagged map that "
+            "tiles the scaffolds it shows (any order / orientation / grouping of pieces >= 2 texels, scaffolds absent at will, texel >= 1 bp, stranded "
+            "untagged input contigs) the whole pipeline completes and every piece with a contig base in its core has a result with the C18 invariant "
+            "and core_kept whose rows sit as one contiguous block (reversed exactly for minus-strand pieces) in a scaffold of an output assembly; "
+            "two such pieces of one Pretext scaffold lie in one output scaffold in Pretext order; the hypothesis on input strands is shown necessary. "
+            "Coq theorems about the remapping stage (remap_to_input), no size bound, for EVERY PretextView-model edit script and more: "
             "(1) C02_completion: for every map that tiles every scaffold it shows (ascending baits cover 1..E without hole or overlap, "
             "pieces >= 2 texels when a scaffold is shown in more than one piece, any order / orientation / grouping, any subset of "
             "scaffolds absent, texel >= 1 bp, untagged baits, well-formed untagged input) remapping returns Ok -- no lookup fails, "
